@@ -10,6 +10,8 @@ import (
 	"strings"
 	"time"
 
+	"github.com/inbucket/inbucket/v3/pkg/rest/client"
+
 	"verifharness/internal/fw"
 	"verifharness/internal/sut"
 )
@@ -265,6 +267,47 @@ func endToEnd(c *fw.Ctx, n *namer, idx int, r *fw.Rand) {
 		}
 		c.Count("e2e_lookup_by_"+k.how, 1)
 		sig += "|" + k.how
+	}
+	// the Go client is a read interface too: it takes the address or name as the user wrote it
+	gc, err := client.New(env.Base, client.WithTransport(cl.Transport))
+	if err != nil {
+		panic(err)
+	}
+	for _, k := range keys {
+		why := ""
+		hs, err := gc.ListMailbox(k.x)
+		if err != nil {
+			why = "ListMailbox: " + err.Error()
+		} else {
+			why = fmt.Sprintf("ListMailbox: message %s not among %d headers", msgs[0].ID, len(hs))
+			for _, h := range hs {
+				if h.ID == msgs[0].ID {
+					why = ""
+					if h.Mailbox != name {
+						why = fmt.Sprintf("ListMailbox: header reports mailbox %q", h.Mailbox)
+					}
+				}
+			}
+		}
+		if why == "" {
+			if m, err := gc.GetMessage(k.x, msgs[0].ID); err != nil {
+				why = "GetMessage: " + err.Error()
+			} else if m.ID != msgs[0].ID || m.Mailbox != name {
+				why = fmt.Sprintf("GetMessage: reports mailbox %q id %q", m.Mailbox, m.ID)
+			}
+		}
+		if why == "" {
+			if src, err := gc.GetMessageSource(k.x, msgs[0].ID); err != nil {
+				why = "GetMessageSource: " + err.Error()
+			} else if !bytes.Contains(src.Bytes(), []byte("plain "+token)) {
+				why = "GetMessageSource: not the delivered source"
+			}
+		}
+		c.Count("e2e_go_client_lookups", 1)
+		if why != "" {
+			c.Violation(fkey(k, "go-client"), fmt.Sprintf("mode %s: mail to %q (mailbox %q) is not reached through the Go client [by %s %q]: %s",
+				n.mode, a.Text, name, k.how, k.x, fw.Trunc(why, 200)), detail)
+		}
 	}
 	// changing routes: mark seen, delete one message, purge; each through a randomly chosen key,
 	// judged by the store's content afterwards
